@@ -1792,6 +1792,29 @@ func init() {
 // `list = append(list, X)` statements, or — when the appends sit in a loop over
 // a composite literal — the elements of that literal.
 func layerOrder(f *core.FuncInfo) []string {
+	seq := layerOrderIn(f)
+	if len(seq) > 0 {
+		return seq
+	}
+	// the list may be built by a helper of the same package (extracted so that listing and counting share it)
+	c := f.Ctx()
+	ast.Inspect(f.Body(), func(x ast.Node) bool {
+		if len(seq) > 0 {
+			return false
+		}
+		if call, ok := x.(*ast.CallExpr); ok {
+			if fn := core.Callee(c.Info, call); fn != nil && fn.Pkg() != nil && fn.Pkg() == f.Pkg.Types {
+				if h := f.W.FuncOf(fn); h != nil && h != f {
+					seq = layerOrderIn(h)
+				}
+			}
+		}
+		return true
+	})
+	return seq
+}
+
+func layerOrderIn(f *core.FuncInfo) []string {
 	c := f.Ctx()
 	var seq []string
 	ast.Inspect(f.Body(), func(x ast.Node) bool {
